@@ -173,7 +173,7 @@ RECURSIVE Fresh(_)
 FreshSeq(s) == [i \in 1..Len(s) |-> Fresh(s[i])]
 FreshKvs(s) == [i \in 1..Len(s) |-> <<s[i][1], Fresh(s[i][2])>>]
 Fresh(v) ==
-    CASE Tag(v) = "nan" -> VNaN(Pay(v) + 1000)
+    CASE Tag(v) = "nan" -> VNaN(IF Pay(v) = 0 THEN 0 ELSE Pay(v) + 1000)      \* (identity 0: the NaN of a typed cell, not an object)
       [] Tag(v) = "np"  -> NpS(Pay(v)[1], Fresh(Pay(v)[2]))
       [] Tag(v) \in {"t", "l"} -> <<Tag(v), FreshSeq(Pay(v))>>
       [] Tag(v) = "m"   -> VDict(FreshKvs(Pay(v)))
